@@ -28,12 +28,15 @@ PROP = {
         "STLUR*; LDAR/LDLAR/STLR/STLLR(+B/H); LDP/STP/LDNP/STNP (32/64-bit) and LDPSW in all modes; B, BL, BR, BLR, RET, B.cond, CBZ/CBNZ, TBZ/TBNZ",
         "partial theorem [U] (sim_c true: everything but C agrees, and c = NOT C is proved) + refutation witness subs_carry_refuted: SUBS in all three "
         "operand forms (known finding kf:subs-carry-is-borrow; fixing it needs the unedited test subs_xn to change)",
-        "specification + mirror + syntactic tie + sampled comparison incl. V0..V31, no theorem (emb does not speak about vector registers): SIMD&FP "
-        "LDR/STR/LDUR/STUR of B/H/S/D/Q registers in all addressing modes, LDP/STP/LDNP/STNP of S/D/Q",
-        "forms the lifter rejects hold vacuously (sim_rejected): CMP/CMN/NEG/NEGS aliases, MOVK, non-alias MOVZ/MOVN/ORR, LDR/LDRSW literal",
-        "accepted by the lifter, NOT specified (counted per run in evidence extra.accepted_words_outside_the_specification and tagged "
-        "cov:accepted-outside-the-listed-classes): vector/SVE ADD and SUB (lifted as ONE wide addition: wrong lane semantics), MOV element/vector/SVE forms, "
-        "SVE prefetches (nop), ORR-immediate words with a RESERVED bitmask encoding that bad64 decodes as mov (kf:reserved-bitmask-immediate-accepted)",
+        "specification + mirror + syntactic tie + sampled comparison incl. V0..V31, NO theorem (extending the theorems' embedding emb to V0..V31 did not "
+        "fit in round 4; sim_all / c03_end_to_end carry is_vector i = false): SIMD&FP LDR/STR/LDUR/STUR of B/H/S/D/Q in all addressing modes, "
+        "LDP/STP/LDNP/STNP of S/D/Q, the AdvSIMD element moves spelled MOV (INS element, INS general, UMOV S/D, DUP element scalar, ORR vector with Rm = Rn), "
+        "scalar ADD/SUB of D registers",
+        "forms the lifter rejects hold vacuously (sim_rejected): CMP/CMN/NEG/NEGS aliases, MOVK, non-alias MOVZ/MOVN/ORR, LDR/LDRSW literal; since fix 8be3994 "
+        "also every vector / SVE ADD, SUB and every MOV with SVE registers (they were lifted as one scalar operation)",
+        "accepted words outside the specification: 0 on a 3 000 000-word uniform scan (545 065 accepted) apart from the 7 words of known finding "
+        "kf:reserved-bitmask-immediate-accepted (ORR-immediate with a RESERVED bitmask encoding, UNDEFINED in the Arm ARM, decoded by bad64 as mov); "
+        "SVE prefetches are specified as NOP; per run: evidence extra.accepted_words_outside_the_specification",
         "not compared by design (a64step = Undef): CONSTRAINED UNPREDICTABLE register coincidences (write-back with base = transfer register, ldp t = t2, "
         "ordered accesses with (1) fields not all ones), accesses wrapping around 2^64; the hypotheses wf / emb / mapped / addr + 4 < 2^64 of sim",
     ],
@@ -42,7 +45,7 @@ PROP = {
                   "in the reference IL semantics yields the X0-X30/SP, NZCV, memory and next pc of a Gallina transcription of the Arm ARM pseudocode "
                   "(sim_all; SUBS only up to the inverted carry, a known finding with a refutation witness); decode_fields discharges the field ranges and "
                   "c03_end_to_end transfers the result to the IL dumped by the real translate_block for every enumerated word whose kernel-evaluated "
-                  "syntactic tie holds. SIMD&FP loads/stores are specified, mirrored, tied and compared on sampled states (no theorem). Every run also "
+                  "syntactic tie holds. SIMD&FP loads/stores, AdvSIMD element moves and scalar D add/sub are specified, mirrored, tied and compared on sampled states (no theorem). Every run also "
                   "checks that lifter and specification agree on WHICH words are accepted, and counts the accepted words outside the specification.",
     "level_note": "Trusted: Coq kernel + vm_compute; the transcription of the Arm ARM (Isa/A64.v); Exec/Sem.v; the harness printer. The decoder bad64 is not trusted "
                   "beyond the enumerated words: its operand presentation is re-checked against the mirror on every run.",
